@@ -1,7 +1,11 @@
 (* Executable monitor for C14 over an observed trace (event, observation after the event).
-   It knows the configuration, the health checks and clock moves that were injected, and which
-   role-change callbacks are outstanding (entries and returns are observable); it knows nothing of
-   the controller's internals.  Clauses, as in the property text:
+   It knows the configuration, the RESULTS of the individual health checks and the clock moves that
+   were injected, and which role-change callbacks are outstanding (entries and returns are
+   observable); it knows nothing of the controller's or the health monitor's internals.
+   "The partner is reported down / healthy" is the monitor's OWN reading of the check results
+   (Model/HealthHyst.v: down once FailureThreshold consecutive checks failed, healthy again once
+   RecoveryThreshold consecutive checks succeeded), never the implementation's flag.
+   Clauses, as in the property text:
 
    0  role_changes_only_after_callback_ok : the reported role differs from the previous report only
       at a step where an outstanding callback returned nil, and it becomes that callback's newRole
@@ -17,18 +21,35 @@
       state failback_pending => the failback timer is pending or a failback callback is outstanding
    5  failback_completes_healthy          : the role returns to the configured role (failback
       completes) only while the last health report is "healthy"
+   6  partner_down_only_after_threshold   : the implementation's health report (IsPartnerHealthy, and
+      the partner_down / partner_up notifications) goes healthy -> down only at a failed check that
+      completes >= FailureThreshold consecutive failures, and down -> healthy only at a successful
+      check that completes >= RecoveryThreshold consecutive successes
    9  malformed observation *)
 From Coq Require Import NArith List Bool.
-From Verif Require Import Model.Failover.
+From Verif Require Import Model.HealthHyst Model.Failover.
 Import ListNotations.
 Local Open Scope N_scope.
 
 Record sstate := mkSS {
-  s_now : N; s_healthy : bool; s_since : N; s_role : role;
+  s_now : N;
+  s_healthy : bool; s_cf : N; s_cs : N; (* the hysteresis of HealthHyst.v over the check results so far *)
+  s_rep : bool;                         (* the implementation's last health report *)
+  s_since : N; s_role : role;
   s_inflight : list (kind * role)       (* outstanding callbacks: started by, newRole *)
 }.
 
-Definition sinit (c : config) : sstate := mkSS 0 true 0 (c_orig c) [].
+Definition sinit (c : config) : sstate := mkSS 0 true 0 0 true 0 (c_orig c) [].
+
+Definition check_result (e : ev) : option bool :=
+  match e with Down => Some false | Up => Some true | _ => None end.
+
+Definition shyst (c : config) (ss : sstate) (e : ev) : hyst :=
+  let y := mkH (s_healthy ss) (s_cf ss) (s_cs ss) in
+  match check_result e with
+  | Some ok => hyst_step (c_fthr c) (c_rthr c) y ok
+  | None => y
+  end.
 
 Definition started_kind (e : ev) : option kind :=
   match e with
@@ -44,10 +65,10 @@ Definition has_kind (k : kind) (l : list (kind * role)) : bool :=
   existsb (fun x => kind_eqb (fst x) k) l.
 
 (* next monitor state (independent of whether a clause is violated) *)
-Definition snext (ss : sstate) (e : ev) (o : out) : sstate :=
+Definition snext (c : config) (ss : sstate) (e : ev) (o : out) : sstate :=
   let nw := match e with Advance d => s_now ss + d | _ => s_now ss end in
-  let h := match e with Down => false | Up => true | _ => s_healthy ss end in
-  let sn := match e with Down => if s_healthy ss then s_now ss else s_since ss | _ => s_since ss end in
+  let y := shyst c ss e in
+  let sn := if s_healthy ss && negb (y_up y) then s_now ss else s_since ss in
   let fl := match e with
             | CbReturn i _ => remove_nth (N.to_nat i) (s_inflight ss)
             | _ => s_inflight ss
@@ -56,7 +77,7 @@ Definition snext (ss : sstate) (e : ev) (o : out) : sstate :=
             | Some r, Some k => fl ++ [(k, r)]
             | _, _ => fl
             end in
-  mkSS nw h sn (o_role o) fl.
+  mkSS nw (y_up y) (y_f y) (y_s y) (o_healthy o) sn (o_role o) fl.
 
 Definition returned (ss : sstate) (e : ev) : option (kind * role) :=
   match e with
@@ -103,6 +124,15 @@ Definition v5 (ss : sstate) (e : ev) (o : out) : bool :=
   | _ => false
   end.
 
+Definition v6 (c : config) (ss : sstate) (e : ev) (o : out) : bool :=
+  let y := shyst c ss e in
+  let down_ok := match e with Down => c_fthr c <=? y_f y | _ => false end in
+  let up_ok := match e with Up => c_rthr c <=? y_s y | _ => false end in
+  (s_rep ss && negb (o_healthy o) && negb down_ok)
+  || (negb (s_rep ss) && o_healthy o && negb up_ok)
+  || ((o_hev o =? 1) && negb down_ok)
+  || ((o_hev o =? 2) && negb up_ok).
+
 Definition v9 (e : ev) (o : out) : bool :=
   match o_cb o, started_kind e with
   | Some _, None => true
@@ -114,12 +144,12 @@ Definition flag (b : bool) (k : N) : list N := if b then [k] else [].
 (* the clauses violated by this step, in increasing order *)
 Definition viol (c : config) (ss : sstate) (e : ev) (o : out) : list N :=
   flag (v0 ss e o) 0 ++ flag (v1 ss e o) 1 ++ flag (v2 c ss e o) 2 ++ flag (v3 ss o) 3
-  ++ flag (v4 (snext ss e o) o) 4 ++ flag (v5 ss e o) 5 ++ flag (v9 e o) 9.
+  ++ flag (v4 (snext c ss e o) o) 4 ++ flag (v5 ss e o) 5 ++ flag (v6 c ss e o) 6 ++ flag (v9 e o) 9.
 
 (* [m] selects the clauses that are monitored *)
 Definition accept_m (m : N -> bool) (c : config) (ss : sstate) (e : ev) (o : out) : sstate + N :=
   match filter m (viol c ss e o) with
-  | [] => inl (snext ss e o)
+  | [] => inl (snext c ss e o)
   | cl :: _ => inr cl
   end.
 
@@ -153,9 +183,10 @@ Definition not_stale (_ : state) (e : ev) : bool :=
 (* at most one role-change callback outstanding at any time *)
 Definition serial_step (c : config) (s : state) (e : ev) : bool :=
   Nat.leb (length (inflight (fst (fst (step c s e))))) 1.
-(* no health-check failure is reported while a failback callback is outstanding *)
-Definition quiet_fb (s : state) (e : ev) : bool :=
+(* the partner is not reported down (no failed check that completes FailureThreshold consecutive
+   failures of a healthy partner) while a failback callback is outstanding *)
+Definition quiet_fb (c : config) (s : state) (e : ev) : bool :=
   match e with
-  | Down => negb (existsb (fun x => kind_eqb (x_kind x) FB) (inflight s))
+  | Down => negb (existsb (fun x => kind_eqb (x_kind x) FB) (inflight s) && goes_down c s)
   | _ => true
   end.
